@@ -244,6 +244,30 @@ void check_C19(Src &s, Ctx &ctx) {
     if (any_nt) ctx.label("nt:cap-in-linesearch-after-accept"); if (any_tol_stop) ctx.label("stop:tolerance");
     ctx.nontrivial = any_nt;
 
+    // ---- several calls on ONE state object: adaptive call, the iterate is then moved through the vector reference the state converts to (also what the
+    // constant-step overload uses), and a second adaptive call follows; each call is judged on its own: it must start from the current iterate
+    // (first objective evaluation at that point) and return a point that is not worse than where it started
+    {
+        TasOptimization::GradientDescentState st(start, s0);
+        int cap1 = 1 + s.pick(std::max(1, N)), cap2 = 1 + s.pick(std::max(1, N)); int mover = s.pick(3);
+        log.clear();
+        if (P.proj == P_NONE) TasOptimization::GradientDescent(fL, gL, inc, dec, cap1, tol, st); else TasOptimization::GradientDescent(fL, gL, pL, inc, dec, cap1, tol, st);
+        Vec moved(n);
+        if (mover == 0) { std::vector<double> &xr = st; Vec shifted = xr; for (size_t j = 0; j < n; j++) shifted[j] += sgrid(s, 4, 0.5) + 0.125; P.project(shifted, moved); xr = moved; }
+        else if (mover == 1 && P.obj != O_ROSEN) { TasOptimization::GradientDescent(gL, 0.5 / P.L, 1 + s.pick(3), 0.0, st); Vec cur = st.getX(); P.project(cur, moved); std::vector<double> &xr = st; xr = moved; }
+        else { Vec shifted = st.getX(); for (size_t j = 0; j < n; j++) shifted[j] -= 0.25 * (double)(1 + s.pick(4)); P.project(shifted, moved); st.setX(moved); }
+        double f2 = P.f(moved);
+        log.clear();
+        if (P.proj == P_NONE) TasOptimization::GradientDescent(fL, gL, inc, dec, cap2, tol, st); else TasOptimization::GradientDescent(fL, gL, pL, inc, dec, cap2, tol, st);
+        Vec r2 = st.getX(); double fr2 = P.f(r2);
+        { std::ostringstream o; o << "sequence on one state: cap " << cap1 << ", iterate moved by " << (mover == 0 ? "vector reference" : mover == 1 ? "constant-step call + reference" : "setX") << " to (" << joind(moved) << "), cap " << cap2; ctx.log(o.str()); }
+        bool evaluated_start = false; for (auto &ev : log) if (ev.k == 'F') { evaluated_start = same_bits(ev.x, moved); break; }
+        if (cap2 > 0 && !log.empty()) VF_REQUIRE("C19.sequence-stale-start", evaluated_start, "the second call on the same state did not evaluate the objective at the iterate it was started from (" << joind(moved) << ")");
+        double tseq = 64 * (num_tol + 1e-13 * std::max(1.0, std::fabs(f2)));
+        VF_REQUIRE("C19.sequence-worse-than-start", fr2 <= f2 + tseq, "second call on the same state: started at f=" << decd(f2) << " and returned f=" << decd(fr2) << " (iterate moved by " << (mover == 0 ? "vector reference" : mover == 1 ? "constant-step call" : "setX") << ")");
+        ctx.count("sequence-runs"); ctx.label(mover == 0 ? "seq:vector-reference" : mover == 1 ? "seq:constant-step" : "seq:setX");
+    }
+
     // ---- constant step variant: exactly min(cap, first k >= 1 with |grad f(x_k)| <= tol) steps of x_{k+1} = x_k - step * grad f(x_k)
     if (do_const) {
         double stepc = cfac / P.L;
